@@ -26,7 +26,7 @@ impl Driver for Idler {
     fn ext_step<'a>(&'a self, w: &'a mut World, code: u32) -> std::pin::Pin<Box<dyn std::future::Future<Output = ()> + 'a>> {
         Box::pin(async move {
             w.scratch.push(("idle".into(), vec![code as u8]));
-            clock::advance(Duration::from_secs(code as u64));
+            w.advance_through(Duration::from_secs(code as u64)).await;
         })
     }
     fn fingerprint_extra(&self, w: &World) -> u128 {
